@@ -13,11 +13,14 @@ PLAN = {
     "C10": [("copy", c, "quick", 1, ("view", "wf", "fresh", "source")) for c in ALL] + [("copy_constructor", c, "quick", 1, ("view", "wf", "fresh", "source")) for c in ALL]
            # comprehensions of MolGraph.subgraph / relabel_atoms summarised on a generic element (vf/pyvc/summarise.py): argument and graph of any size
            + [("subgraph(any size)", c, "quick", 1, ("fresh", "source")) for c in ("MolGraph", "CondensedReactionGraph")]
+           + [("subgraph(any size)", "StereoMolGraph", "quick", 1, ("fresh", "source"), 2), ("subgraph(any size)", "StereoCondensedReactionGraph", "quick", 1, ("fresh", "source"), 4)]
            + [("relabel_atoms(copy=True)", c, "quick", 1, ("fresh", "source")) for c in ("MolGraph", "CondensedReactionGraph")]
            # the argument given as a one-shot iterator (bounded mode: <= 1 element)
            + [("subgraph", c, "quick", 1, ("fresh", "source")) for c in ("MolGraph", "CondensedReactionGraph")]
            + [("enantiomer", "StereoMolGraph", "quick", 1, ("fresh", "source")), ("enantiomer", "StereoCondensedReactionGraph", "quick", 1, ("fresh", "source"), 4)],
     "C17": [("subgraph(any size)", c, "quick", 1, ("view", "wf")) for c in ("MolGraph", "CondensedReactionGraph")]
+           # the stereo classes add loops over the descriptor / stereo-change tables: side-car invariants, one task per loop
+           + [("subgraph(any size)", "StereoMolGraph", "quick", 1, ("view", "wf"), 2), ("subgraph(any size)", "StereoCondensedReactionGraph", "quick", 1, ("view", "wf"), 4)]
            + [("subgraph", c, "quick", 1, ("view", "wf")) for c in ("MolGraph", "CondensedReactionGraph")]
            + [("subgraph", c, "thorough", 2, ("view", "wf")) for c in ("MolGraph",)],
     # loops of SMG.enantiomer carry side-car invariants (vf/contracts/loop_invariants.py) -> unbounded; invert() enters through its contract
